@@ -618,4 +618,30 @@ example : h1ErrorReply true false 7 [0x3c] = (none, true) ∧ h1ErrorReply true 
           h1ErrorReply false false 1 [0x3c] = (none, false) ∧ (h1ErrorReply true false 3 [0x3c]).1.isSome = true := by
   decide +kernel
 
+/-! ### audit round 6: non-vacuity witnesses (hypotheses instantiated on concrete, non-trivial values) -/
+
+-- `page_wellformed`: a status of the domain and a message made of markup — the reference reader returns the expected response
+example : (100 ≤ 502 ∧ 502 ≤ 999) ∧
+    refParse (makeErrorResponse 502 [0x3c, 0x27, 0x26]) = some (expected 502 (formatError 502 [0x3c, 0x27, 0x26])) := by
+  decide +kernel
+
+-- `h1_error_reply_wellformed` / `error_page_only_before_any_head`: the hypothesis "a page is written" holds for a writable
+-- connection without response head and an error code that maps to a status (2 -> 502), with exactly this page
+example : (h1ErrorReply true false 2 [0x3c]).1 = some (makeErrorResponse 502 [0x3c]) ∧
+    (h1ErrorReplyAfter true none 2 [0x3c]).1 = some (makeErrorResponse 502 [0x3c]) ∧ errorStatus 2 = some 502 := by
+  decide +kernel
+
+-- `h1_history_at_most_one_page`: a history in which the page IS written (pages = 1): the wire is that response, closed
+example : (h1Run [.error 2 [0x3c], .relay 200 [0x41], .body [0x42], .error 1 [0x3e]]).pages = 1 ∧
+    (h1Run [.error 2 [0x3c], .relay 200 [0x41], .body [0x42], .error 1 [0x3e]]).canWrite = false ∧
+    (h1Run [.error 2 [0x3c], .relay 200 [0x41], .body [0x42], .error 1 [0x3e]]).wire = makeErrorResponse 502 [0x3c] := by
+  decide +kernel
+
+-- `error_status_in_domain` / `errorStatus_domain`: the regenerated map is not empty and does map codes to pages
+example : Gen.C12.errorStatus ≠ [] ∧ Gen.C12.errorStatus.any (fun e => e.2 != 0) = true ∧
+    Gen.C12.errorStatus.any (fun e => e.2 == 0) = true := by decide +kernel
+
+-- `wire_unchanged_after_101_or_final`: after a relayed 101 the error path adds nothing to the client's wire
+example : clientWire [0x41, 0x42] true (some 101) 2 [0x3c] = [0x41, 0x42] ∧ (101 = 101 ∨ 200 ≤ 101) := by decide +kernel
+
 end MitmVerif.Props.C12
